@@ -947,7 +947,13 @@ func (t *fnTrans) analyzeCFG() {
 		hs = append(hs, h)
 	}
 	// source order: position of the loop's first positioned instruction; fall back to block index
-	sort.Slice(hs, func(i, j int) bool { return t.loopPos(hs[i]) < t.loopPos(hs[j]) })
+	sort.Slice(hs, func(i, j int) bool {
+		// ties (a labelled loop and the range loop that starts at the same position): deterministic, by header block index
+		if pi, pj := t.loopPos(hs[i]), t.loopPos(hs[j]); pi != pj {
+			return pi < pj
+		}
+		return hs[i] < hs[j]
+	})
 	for i, h := range hs {
 		t.loops[h].ordinal = i
 		if t.fc != nil {
